@@ -196,7 +196,8 @@ func validateResponseHeader(headerName string, headerRef *openapi3.HeaderRef, in
 	}
 
 	if found {
-		if err = headerRef.Value.Schema.Value.VisitJSON(decodedValue, opts...); err != nil {
+		// A header is part of the response as much as the body is
+		if err = headerRef.Value.Schema.Value.VisitJSON(decodedValue, append(opts, openapi3.VisitAsResponse())...); err != nil {
 			return &ResponseError{
 				Input:  input,
 				Reason: fmt.Sprintf("response header %q doesn't match schema", headerName),
